@@ -205,6 +205,8 @@ struct PdiOpts
   bool allow_trim = true;
   bool force_noarccorr = true;
   int max_span = 11;
+  bool allow_asym_segments = false; // reduce_segment_range(-a, b) with a != b (only geometry-level properties)
+  bool allow_clamped_seg0 = false;  // even span with max_delta < span/2: segment 0 itself is asymmetric
 };
 
 //! all divisors of n
@@ -238,7 +240,7 @@ gen_pdi(Src& s, const stir::Scanner& sc, const PdiOpts& o)
     }
   // even spans: segment 0 covers -span/2..span/2; with max_delta < span/2 it would be clamped asymmetrically
   // (legal for construct_proj_data_info but rejected by the projector symmetries: "segment 0 ... direct planes")
-  int min_delta = span / 2;
+  int min_delta = (o.allow_clamped_seg0 && s.chance(1, 4)) ? (span - 1) / 2 : span / 2;
   if (min_delta > rings - 1)
     {
       span = 1;
@@ -278,6 +280,8 @@ gen_pdi(Src& s, const stir::Scanner& sc, const PdiOpts& o)
     {
       trim["max_seg"] = int(s.range(0, 3));
       trim["tang_cut"] = int(s.range(0, 2));
+      if (o.allow_asym_segments && s.coin())
+        trim["min_seg"] = -int(s.range(0, 3));
     }
   j["trim"] = trim;
   return j;
@@ -299,7 +303,8 @@ make_pdi(const stir::shared_ptr<stir::Scanner>& sc, const json& j)
   if (trim.contains("max_seg"))
     {
       const int ms = std::min(trim["max_seg"].get<int>(), p->get_max_segment_num());
-      p->reduce_segment_range(-ms, ms);
+      const int mins = trim.contains("min_seg") ? std::max(trim["min_seg"].get<int>(), p->get_min_segment_num()) : -ms;
+      p->reduce_segment_range(mins, ms);
       const int cut = trim["tang_cut"].get<int>();
       if (cut > 0 && p->get_num_tangential_poss() > 2 * cut + 1)
         {
